@@ -3,7 +3,9 @@ SPEC = {
     "custom": "py_driver", "script": "c20_explore.py", "ext": "c20_ext", "engine": "py-explorer",
     "deadline": {"quick": 420, "thorough": 2400},
     # thorough: + free-running threads pass in the plain build and under ThreadSanitizer (sampling; reported separately)
-    "variants": {"thorough": [["", "c20_threads.py", "threads:"], ["tsan", "c20_threads.py", "tsan:"]]},
+    # scalar: the clause "the scalar bindings return what the C++ library returns" (py/c20_scalar.py against py/verifref_*.cpp)
+    "variants": {"quick": [["", "c20_scalar.py", "scalar:"]],
+                 "thorough": [["", "c20_scalar.py", "scalar:"], ["", "c20_threads.py", "threads:"], ["tsan", "c20_threads.py", "tsan:"]]},
     "technique": "stateless exploration of every (partition, piece order, worker-id map) schedule of the real task bodies under a scripted WorkerPool, differential against the pool-free run",
     "rule": "entry points discovered by introspection of the built module; for each: every plain/masked(/unmasked-length) combination of its array arguments x every partition of [0,208) by <=2 (quick) / <=3 (thorough) cuts from the boundary alphabet {1,2,104,199,200,201,206,207} x every order of the pieces x worker-id maps (all maps for reductions); non-trivial = schedule in which the pool was actually entered (dispatch counter), masked argument kinds, reference-raising cases, footprint pieces, scalar comparisons (counted separately)",
     "level_text": "Every exported array entry point is executed on the real module under every schedule of the stated bounded space (element-granularity pre-emption = partition/order/tid), and compared bit-for-bit with the pool-free run, with a single-piece footprint oracle and a per-element scalar oracle; this is an exhaustive exploration of the scheduler nondeterminism the WorkerPool seam exposes, which is all the nondeterminism there is because task bodies contain no synchronisation.",
